@@ -333,6 +333,7 @@ func (w *simWriter) Write(b []byte) (int, error) {
 // --- the run ---------------------------------------------------------------------------
 
 type c38run struct {
+	long    bool
 	msgs    []mdesc
 	mode    int
 	work    []string
@@ -354,8 +355,20 @@ func (c38) NewRun(plan *simrt.Source, job *harn.Job) harn.Run {
 	if big {
 		n = 2 + plan.Draw(5)
 	}
+	if plan.Chance(30) {
+		// a long session: hundreds of messages on one stream (state the framer or
+		// codec accumulates across messages), now and then a body of several
+		// hundred kilobytes
+		r.long = true
+		n = 100 + plan.Draw(200)
+		r.mode = plan.Draw(2)
+	}
 	for i := 0; i < n; i++ {
-		r.msgs = append(r.msgs, genMsg(plan, big, r.exotic))
+		m := genMsg(plan, big && !r.long, r.exotic)
+		if r.long && plan.Chance(10) {
+			m.Params = bigJSON(200000+plan.Draw(600000), plan.Draw(36))
+		}
+		r.msgs = append(r.msgs, m)
 	}
 	r.work = append(r.work, []string{"mode: round trip under chunking + truncation at every offset", "mode: writer failure at a byte offset + context cancellation", "mode: malformed frames", "mode: byte corruption"}[r.mode])
 	h := uint64(14695981039346656037) ^ uint64(r.mode)
@@ -512,10 +525,14 @@ func (r *c38run) RunSeq(sched *simrt.Source, keepLog bool) *simrt.Result {
 		}
 		// (b) every single split position (exhaustive for this stream) up to a bound
 		bound := len(stream)
-		if bound > 1500 && !r.thorough {
+		if bound > 1500 && (!r.thorough || r.long) {
 			bound = 1500
 		}
-		for cut := 1; cut < bound && r.failure == nil; cut++ {
+		stride := 1
+		if r.long {
+			stride = 1 + bound/25 // a long session: a sample of positions, each read-back covers hundreds of messages
+		}
+		for cut := 1; cut < bound && r.failure == nil; cut += stride {
 			first := true
 			c := cut
 			rd := &simReader{data: stream, endErr: io.EOF, chunk: func(avail, want int) int {
@@ -530,7 +547,7 @@ func (r *c38run) RunSeq(sched *simrt.Source, keepLog bool) *simrt.Result {
 			r.expectPrefix(fmt.Sprintf("stream split once at byte %d", cut), out, r.msgs, len(r.msgs), true)
 		}
 		// (c) truncation at every byte offset, alternating EOF and a failure
-		for t := 0; t < bound && r.failure == nil; t++ {
+		for t := 0; t < bound && r.failure == nil; t += stride {
 			endErr := io.EOF
 			if t%2 == 1 {
 				endErr = errStream
